@@ -44,6 +44,7 @@ type Cfg struct {
 	EmptyStart  bool     `json:"empty_start"`
 	Sweeper     bool     `json:"sweeper"`
 	Cleaner     bool     `json:"cleaner"`
+	LoopFirst   bool     `json:"loop_first"` // the loop may move on while a download is still in flight
 	ListFaults  bool     `json:"list_faults"` // the initial listing may fail
 	TwoRemotes  bool     `json:"two_remotes"` // two remote instances with disjoint keys; both snapshots may wait in the receiver at once
 }
@@ -92,6 +93,8 @@ type World struct {
 	commitAt  []string
 	storesAfterQuiet int
 	lastSeq  int
+	bookSeq  int
+	loopFirsts int
 	cancelStep int
 	listFail int
 	cleanerFires int
@@ -699,6 +702,29 @@ func (w *World) policy(appPoints map[string]bool) sched.Policy {
 			}
 			return []sched.Choice{{Label: l, P: p, Answer: ans}}
 		}
+		// bookkeeping when the loop goroutine arrives at a new park (whether or not it is its turn)
+		if loop != nil && loop.Seq() != w.bookSeq {
+			w.bookSeq = loop.Seq()
+			w.mu.Lock()
+			switch loop.Point {
+			case "sleep.lmdbpoll":
+				if w.activity || len(background) > 0 {
+					w.idle = 0 // not idle while a download is still in flight
+				} else {
+					w.idle++
+				}
+				w.activity = false
+			case "sync.beforeLoad":
+				if w.pending > 0 {
+					w.pending--
+				}
+			case "sync.afterLoad":
+				w.loads++
+				w.activity = true
+			}
+			w.visits[loop.Point]++
+			w.mu.Unlock()
+		}
 		// a straddling application transaction commits as soon as the loop is blocked on the LMDB write lock
 		if straddle != nil && loop == nil && len(background) == 0 {
 			return one(straddle, 0)
@@ -708,6 +734,11 @@ func (w *World) policy(appPoints map[string]bool) sched.Policy {
 			out := one(p, 0)
 			if p.Point == "st.load" && len(p.Answers) == 2 {
 				out = append(out, sched.Choice{Label: p.Key() + "=fail", Cost: 1, P: p, Answer: 1})
+			}
+			// the loop is faster than the background work (a download is still in flight when the loop moves on)
+			if cfg.LoopFirst && loop != nil && straddle == nil && !strings.HasPrefix(loop.Point, "st.") && loop.Point != "start" && w.loopFirsts < 3 {
+				lp := loop
+				out = append(out, sched.Choice{Label: "loop-runs-first:" + loop.Key(), Cost: 1, Act: &sched.Action{Do: func() { w.loopFirsts++; w.lastHook = lp.Point; s.Release(lp, 0) }}})
 			}
 			return out
 		}
@@ -724,14 +755,6 @@ func (w *World) policy(appPoints map[string]bool) sched.Policy {
 		switch {
 		case loop.Point == "sleep.lmdbpoll":
 			w.mu.Lock()
-			if arrived {
-				if w.activity {
-					w.idle = 0
-				} else {
-					w.idle++
-				}
-				w.activity = false
-			}
 			needList := w.listedVer != w.bucketVer
 			w.mu.Unlock()
 			var out []sched.Choice
@@ -791,22 +814,6 @@ func (w *World) policy(appPoints map[string]bool) sched.Policy {
 			return one(loop, 0)
 		}
 		// a hook point of the loop
-		if arrived {
-			if loop.Point == "sync.beforeLoad" {
-				w.mu.Lock()
-				if w.pending > 0 {
-					w.pending--
-				}
-				w.mu.Unlock()
-			}
-			if loop.Point == "sync.afterLoad" {
-				w.mu.Lock()
-				w.loads++
-				w.activity = true
-				w.mu.Unlock()
-			}
-			w.visits[loop.Point]++
-		}
 		out := one(loop, 0)
 		if cfg.Cancel && !w.cancelled && arrived {
 			out = append(out, w.cancelChoice(s, loop.Point))
